@@ -12,6 +12,7 @@ reported explicit may have been supplied at another level.  Presence of such an 
 test on it) is UNKNOWN; a violation is raised only when its condition is definitely true.
 """
 import collections
+import re
 
 from .. import gen_cmd, parse_streams
 from ..core import hexs
@@ -1223,9 +1224,71 @@ SIZES = {"quick": (24000, 8000, 6000), "thorough": (240000, 80000, 60000)}
 SIZES_C3 = {"quick": 3000, "thorough": 30000}
 
 
+# ------------------------------------------------------------------ directed: relations BETWEEN global arguments
+import hashlib as _hashlib
+
+KIND_RE = re.compile(r" \(x-kind (\w+) (\w+)\)")
+
+
+def mark_kind(case, kind):
+    """`(x-kind KIND SUM)` inside the command spec (ignored by both builders): the outcome the documented relations demand
+    for this line, by construction; the checksum covers the rest of the case, so a shrunk or edited case loses the claim"""
+    h = _hashlib.sha1(case.encode()).hexdigest()[:12]
+    i = case.index(") (argv")
+    return case[:i] + " (x-kind %s %s)" % (kind, h) + case[i:]
+
+
+def directed_globals():
+    """Global arguments keep their relations inside every subcommand they are propagated into, whichever of the two was
+    declared first: `--quiet` conflicts with `--verbose`, `--user` requires `--token` (seeded change seed4/C03-2 pruned the
+    relation lists of the propagated copy to the ids the subcommand already knew, losing relations to later-declared
+    globals).  The general oracle is three-valued about the presence of globals in multi-level results, so these lines
+    carry the demanded outcome."""
+    def g(i, **kw):
+        a = {"id": i, "long": i, "flags": {"global"}}
+        a.update(kw)
+        return a
+    quiet = g(b"quiet", action="settrue", conflicts=[b"verbose"])
+    verbose = g(b"verbose", action="settrue")
+    user = g(b"user", action="set", requires=[b"token"])
+    token = g(b"token", action="set")
+    out = []
+    for order in ([quiet, verbose, user, token], [verbose, quiet, token, user], [user, quiet, token, verbose]):
+        c = {"name": b"p", "about": b"A:p", "groups": [], "aliases": [], "settings": [], "args": list(order),
+             "subs": [{"name": b"run", "about": b"A:run", "groups": [], "aliases": [], "settings": [], "args": [],
+                       "subs": [{"name": b"now", "about": b"A:now", "groups": [], "aliases": [], "settings": [], "args": [],
+                                 "subs": []}]}]}
+        for line, kind in (([b"--quiet", b"--verbose"], "ArgumentConflict"), ([b"run", b"--quiet", b"--verbose"], "ArgumentConflict"),
+                           ([b"run", b"--verbose", b"--quiet"], "ArgumentConflict"),
+                           ([b"run", b"now", b"--quiet", b"--verbose"], "ArgumentConflict"),
+                           ([b"--user", b"u"], "MissingRequiredArgument"), ([b"run", b"--user", b"u"], "MissingRequiredArgument"),
+                           ([b"run", b"now", b"--user=u"], "MissingRequiredArgument"),
+                           ([b"run", b"--user", b"u", b"--token", b"t"], "ok"), ([b"run", b"now", b"--token", b"t", b"--user", b"u"], "ok"),
+                           ([b"run", b"--quiet"], "ok"), ([b"run", b"now", b"--verbose"], "ok"), ([b"run", b"now"], "ok")):
+            out.append(mark_kind(gen_cmd.case_sx(c, [b"prog"] + line), kind))
+    return out
+
+
+def directed_oracle(case, impl):
+    m = KIND_RE.search(case)
+    if not m:
+        return None
+    plain = case[:m.start()] + case[m.end():]
+    if _hashlib.sha1(plain.encode()).hexdigest()[:12] != m.group(2):
+        return None
+    r = parse_result(impl)
+    got = "ok" if r["kind"] == "ok" else (r.get("ekind") if r["kind"] == "err" else r["kind"])
+    if got != m.group(1):
+        return "the declared relations between the global arguments demand %s for this line, got %s" % (m.group(1), got)
+    return None
+
+
 def streams(tier, rng):
     n_rel, n_sh, n_adv = SIZES.get(tier, SIZES["quick"])
     out = []
+    dg = directed_globals()
+    out.append(Stream("directed-globals", dg, oracle=directed_oracle, area="parse", project=project,
+                      nontrivial=lambda c, r: bool(r) and r.startswith("err "), describe={"cases": len(dg)}))
     st = new_stats()
     cases = gen_relgraph(rng, n_rel, st)
     d = {"generated": st, "runtime": new_runtime()}
